@@ -37,8 +37,14 @@ def run(ctx, spec, rng):
 def make_pair(rng, r):
     d = int(rng.integers(2, 7))
     cplx = bool(r % 2)
-    cls = ["generic", "generic", "pure", "commuting", "orthogonal", "identical", "near", "mixed-pure"][r % 8]
+    cls = ["generic", "generic", "pure", "commuting", "orthogonal", "identical", "near", "mixed-pure", "basis-int", "generic"][r % 10]
     rk = lambda: int(rng.integers(1, d + 1))  # noqa: E731
+    if cls == "basis-int":  # computational-basis projectors written the way users write them: integer dtype
+        i, j = int(rng.integers(0, d)), int(rng.integers(0, d))
+        rho, sig = np.zeros((d, d), dtype=int), np.zeros((d, d), dtype=int)
+        rho[i, i] = 1
+        sig[j, j] = 1
+        return d, False, "identical-int" if i == j else "orthogonal-int", rho, sig
     if cls == "generic":
         rho, sig = gen.density(rng, d, rk(), cplx), gen.density(rng, d, rk(), cplx)
     elif cls == "pure":
@@ -114,7 +120,7 @@ def _run_pair(ctx, spec, rng):
     m = models(rho, sig)
     rkc = "full" if min(np.linalg.matrix_rank(rho, tol=1e-9), np.linalg.matrix_rank(sig, tol=1e-9)) == d else "deficient"
     sig_ = (d, rkc, cplx, cls)
-    nt = cls != "identical"
+    nt = not cls.startswith("identical")
     det = {"d": d, "class": cls, "complex": cplx}
     lib = {}
     for name, fn in (("fidelity", fidelity), ("trace_distance", trace_distance), ("hilbert_schmidt", hilbert_schmidt), ("helstrom_holevo", helstrom_holevo),
@@ -134,6 +140,14 @@ def _run_pair(ctx, spec, rng):
                 mech = "hilbert_schmidt:squared-spectral-norm-instead-of-Tr(delta^2)"
         ctx.check("O1:" + name, None, dev=abs(lib[name] - m[name]), tol=T2, sig=sig_, nt=nt, mech=mech, detail=dict(det, library=lib[name], definition=m[name]))
     ctx.sample("O1:fidelity", dict(det, library=lib, definition={k: v for k, v in m.items() if k != "ev"}))
+    if spec[1] % 5 == 0:  # the same array object as both arguments: the values of identical states
+        same = {"fidelity": 1.0, "trace_distance": 0.0, "hilbert_schmidt": 0.0, "helstrom_holevo": 0.5, "sub_fidelity": models(rho, rho)["sub_fidelity"]}
+        for name, fn in (("fidelity", fidelity), ("trace_distance", trace_distance), ("hilbert_schmidt", hilbert_schmidt), ("helstrom_holevo", helstrom_holevo),
+                         ("sub_fidelity", sub_fidelity)):
+            one = rho.copy()
+            v = ctx.call(fn, one, one, freeze=False)
+            if v is not FAILED:
+                ctx.check("O1:" + name, None, dev=abs(float(np.real(v)) - same[name]), tol=T2, sig=(d, "same-object", cplx), nt=True, mech=f"{name}:same-object-twice", detail=det)
     v = _val(ctx, hilbert_schmidt_inner_product, rho.copy(), sig.copy())
     if v is not None:
         want = np.sum(rho.conj() * sig)
@@ -182,10 +196,10 @@ def _run_pair(ctx, spec, rng):
             # upper bound compared in squared form: near F = 1 the square root amplifies the 1e-8 error of the computed fidelity
             ctx.check("O2:fuchs-van-de-graaf", 1 - fl <= tl + T2 and tl ** 2 <= 1 - fl ** 2 + T2, sig=sig_, nt=nt,
                       mech="fidelity-trace-distance:fuchs-van-de-graaf-violated", detail=dict(det, F=fl, T=tl))
-        if cls == "identical":
-            ctx.check("O2:extremes", abs(fl - 1) <= T2 and abs(tl) <= T2, sig=("identical", d, cplx), nt=True, mech="extremes:identical-states", detail=dict(det, F=fl, T=tl))
-        if cls == "orthogonal":
-            ctx.check("O2:extremes", abs(fl) <= 1e-5 and abs(tl - 1) <= T2, sig=("orthogonal", d, cplx), nt=True, mech="extremes:orthogonal-states", detail=dict(det, F=fl, T=tl))
+        if cls.startswith("identical"):
+            ctx.check("O2:extremes", abs(fl - 1) <= T2 and abs(tl) <= T2, sig=(cls, d, cplx), nt=True, mech="extremes:identical-states", detail=dict(det, F=fl, T=tl))
+        if cls.startswith("orthogonal"):
+            ctx.check("O2:extremes", abs(fl) <= 1e-5 and abs(tl - 1) <= T2, sig=(cls, d, cplx), nt=True, mech="extremes:orthogonal-states", detail=dict(det, F=fl, T=tl))
             if "helstrom_holevo" in lib:
                 ctx.check("O2:extremes", abs(lib["helstrom_holevo"] - 1) <= T2, sig=("orthogonal-hh", d), nt=True, mech="extremes:helstrom-holevo-orthogonal", detail=det)
         if cls == "pure":
@@ -245,6 +259,12 @@ def _run_reject(ctx, spec, rng):
             if res is FAILED:
                 continue
             ctx.check("O3:rejects-non-density", isinstance(res, ValueError), sig=(fn.__name__, what), nt=True, mech=f"{fn.__name__}:accepts-{what}", detail={"what": what, "returned": res})
+        if what != "shape-mismatch":  # the same array object as both arguments
+            both = bad.copy()
+            res = ctx.call(fn, both, both, expect=(ValueError,), freeze=False)
+            if res is not FAILED:
+                ctx.check("O3:rejects-non-density", isinstance(res, ValueError), sig=(fn.__name__, what, "same-object"), nt=True, mech=f"{fn.__name__}:accepts-{what}[same-object-twice]",
+                          detail={"what": what, "returned": res})
     ctx.sample("O3:rejects-non-density", {"what": what, "d": d})
 
 
